@@ -49,6 +49,11 @@ mutual
     | mutate (what : String)
     | envSet (k v : String)            -- `request.environ[k] = v`
     | extSet (name v : String)         -- `app.request.name = v` (an extension attribute)
+    /-- `app.request[k] = v` inside a handler: `BaseRequest.__setitem__` on the LIVE request, which emits
+    `env_changed` to the listeners of THAT request object only (the built-in cache invalidation; a
+    listener a handler subscribed with `request.on` is a statement of its own application, spelled out by
+    the harness as the reads that follow) -/
+    | reqSet (k v : String)
     | extGet (name : String)           -- `getattr(app.request, name, None)`
     | whoami                           -- which handler runs: the rule it was registered under
     | status (code : Int) (line : String) | rdStatus
@@ -640,6 +645,17 @@ def hop (nest : Req → Prog → Prog) (a : AppId) (cs : List Nat) : HOp → (Li
   | .extGet name, k =>
     .step a (.fget .request "environ" rTmp) fun _ =>
     .step a (.dOp rTmp (.get ("ombott.request.ext." ++ name))) fun r => obsRead a (resVal r) (k cs)
+  | .reqSet key v, k =>
+    -- BaseRequest.__setitem__ on app.request
+    envGet a .request "ombott.request.readonly" fun _ =>
+    .step a (.fget .request "environ" rTmp) fun _ =>
+    .step a (.dOp rTmp (.get key)) fun r =>
+      if r == .val (.str v) then k cs
+      else
+        .step a (.dOp rTmp (.set key (.str v))) fun _ =>
+        -- emit('env_changed') -> _on_env_changed: env = request.environ; [env.pop(...) for ...]
+        .step a (.fget .request "environ" rTmp) fun _ =>
+        (envChangedPops key).foldr (fun c k => .step a (.dOp rTmp (.pop ("ombott.request." ++ c))) fun _ => k) (k cs)
   | .whoami, k => .step a (.dOp rEnviron (.get "#rule")) fun r => obsRead a (resVal r) (k cs)
   | .url, k => reqUrl a .request 0 fun v => obsRead a v (k cs)
   | .status code line, k => setStatus a code line (k cs)
